@@ -14,6 +14,7 @@ DECIDED += "; R12 source / destination are never swapped on the TCP send path (s
 DECIDED += "; R13 a FIN is never answered with a RST (closed stream; read half dropped)"
 DECIDED += "; R13 also: StreamSocket::buffer, which runs only while the stream's table entry exists, builds no RST (segments for a dropped read half are discarded; the open write direction is left alone)"
 DECIDED += '; R14 ReadHalf::put_slice decides from the bytes that remain after the copy whether something is stashed; the stream entry is released by the two Drop impls only (shared C12-R7)'
+DECIDED += '; R15 the stream wrappers forward each poll_ method to the method of the same name; FlowControl::register_waker replaces the registered waker'
 DECIDED += '; R14 also: a read that copied stashed bytes returns without polling the channel again; every segment handed to StreamSocket::buffer enters the reorder buffer'
 ASSUMPTIONS = ["tokio mpsc::channel(n) holds exactly n items", "each direction of a stream has one WriteHalf (one FIN)"]
 
@@ -476,7 +477,42 @@ def _fields(b, op):
     return root_place(b, o["p"])[1] if o["k"] == "place" else []
 
 
+def r15(ctx):
+    R = "C02-R15"
+    ctx.rule(R, "(a) the stream wrappers delegate each AsyncRead / AsyncWrite method to the method of the same name: OwnedReadHalf / OwnedWriteHalf / "
+                "TcpStream::poll_X reach poll_X (or poll_X_priv) of the half they wrap and no other poll_ method - `shutdown()` on an owned write "
+                "half that ends in poll_flush returns Ok and sends no FIN; (b) a writer that parks on flow-control credits leaves *its own* waker: "
+                "FlowControl::register_waker stores the waker it is given unconditionally (a `get_or_insert` keeps the waker of a write that was "
+                "cancelled, and the writer that is really parked is never woken)")
+    n = 0
+    for b in ctx.w.find(r"^<turmoil::net::tcp::.* as tokio::io::Async(Read|Write)>::poll_\w+$"):
+        name = b.id.rsplit("::", 1)[1]
+        polls = [t["f"] for bb, t in b.calls(re.compile(r"::poll_\w+$")) if t["f"].startswith(("turmoil::", "<turmoil::"))]
+        if not polls:
+            continue   # the innermost implementation (WriteHalf::poll_flush does nothing)
+        n += 1
+        other = sorted({f for f in polls if f.rsplit("::", 1)[1] not in (name, name + "_priv")})
+        ctx.inst(R, f"delegates:{b.id}", not other, b.span, f"{name} is forwarded to {name}" if not other else
+                 f"`{b.id}` forwards to `{other[0]}`: the operation asked for is not the one performed (a shutdown that only flushes returns Ok and the peer never sees end-of-file "
+                 "while the half is alive)")
+    ctx.floor(R, 8)
+    rw = ctx.w.bodies.get("turmoil::net::tcp::stream::FlowControl::register_waker")
+    if rw:
+        W = "arg:2:"
+        lazy = [t for bb, t in rw.calls(re.compile(r"Option::(get_or_insert|get_or_insert_with|or|or_else|xor)$"))]
+        stores = [s2 for bb, i, s2 in rw.all_stmts() if i != "term" and s2["r"]["k"] == "agg" and s2["r"].get("variant") == "Some"
+                  and any(a.startswith(W) for o in s2["r"].get("ops", []) for a in Slicer(ctx.w).atoms(rw, o))]
+        stores += [t for bb, t in rw.calls(re.compile(r"Option::(replace|insert)$")) if any(a.startswith(W) for x in t["args"] for a in Slicer(ctx.w).atoms(rw, x))]
+        ok = bool(stores) and not lazy
+        ctx.inst(R, "register_waker:replaces", ok, (lazy[0]["s"] if lazy else rw.span), "the parked writer's waker replaces whatever was registered" if ok else
+                 "FlowControl::register_waker keeps a waker that is already registered: after a parked write was cancelled (timeout, select!) the next writer that parks is never "
+                 "registered - when the reader frees a credit the stale waker is woken and the real writer sleeps for ever (the rest of the stream and its FIN are never sent)")
+    elif ctx.strict:
+        ctx.bad(R, "anchor-missing:register_waker", "", "FlowControl::register_waker not found")
+
+
 def run(ctx):
+    r15(ctx)
     r14(ctx)
     from . import C12
     C12.r7(ctx)   # the stream's table entry lives as long as one half does: close_stream_half is called by the two Drop impls only
